@@ -226,6 +226,15 @@ package check
 //@   props C15
 //@   requires repeatTypeList != nil && strMap != nil
 //@ end
+// every alternative of a union (`A|B`) is expanded: a name already visited on another path is skipped, the alternatives
+// behind it are not (an alias diamond `Part = Motor|Rolling`, `Rolling = Engine|Wheel` must still reach Wheel); a name
+// not yet visited is marked and looked up, with the caller's visited set and repeat list
+//@ func (*AllProject).getInLineAllNormalAnnotateClass
+//@   props C15
+//@   loop range:strSimpleList exits-early-only-if [every-alternative-of-a-union-is-expanded] false
+//@   loop range:strSimpleList step [an-unvisited-alternative-is-looked-up] !prev(has(strMap, strSimple)) ==> hits("getClassTypeInfoList#0") == prev(hits("getClassTypeInfoList#0")) + 1
+//@   at call getClassTypeInfoList#0 before assert[alternative-looked-up-by-its-own-name-with-the-callers-visited-sets] streq(arg1, strSimple) && streq(arg2, fileName) && arg3 == lastLine && arg4 == repeatTypeList && arg5 == strMap && has(strMap, strSimple)
+//@ end
 
 // ---- C19: workspace symbols of the locals of a scope ----
 // every local that is not filtered out (in nested scopes: neither a function nor a table) is collected and has its
@@ -424,4 +433,31 @@ package check
 //@   loop range:a.fileStructMap exits-early-only-if [C19,every-analysed-file-is-queried] false
 //@   loop range:a.fileStructMap step [C19,every-analysed-file-is-queried] fileStruct.HandleResult == results.FileHandleOk ==> len(fileList) == prev(len(fileList)) + 1
 //@   loop range:resultSort.results exits-early-only-if [C19,every-surviving-symbol-is-returned] false
+//@ end
+
+// ---- C09 / C08: the workspace-wide table of globals (client mode: every file's globals) ----
+// The files are visited in hash-map order; what makes the table independent of that order is that a global of a file
+// enters it only through the total order JudgeShouldInsertGlobalInfo (asked for exactly this name and this definition),
+// every global of every file is offered, and the table is built from the SAVED analysis of a file (fileStructMap) - not
+// from the cache of unsaved buffers, whose contents no fresh server would see (C08).
+//@ func (*AllProject).generateAllGlobalMaps
+//@   props C09 C08
+//@   at call JudgeShouldInsertGlobalInfo#0 before assert[C09,the-order-is-asked-about-this-definition] arg0 == third && arg2 == oneVar
+//@   at call InsertThirdGlobalGMaps#0 before assert[C09,a-global-enters-the-table-only-through-the-total-order] arg0 == third && arg2 == oneVar && lastresult("JudgeShouldInsertGlobalInfo#0")
+//@   loop range:fileResult.GlobalMaps step [C09,a-global-enters-the-table-only-through-the-total-order-of-this-iteration] hits("InsertThirdGlobalGMaps#0") > prev(hits("InsertThirdGlobalGMaps#0")) ==> hits("JudgeShouldInsertGlobalInfo#0") == prev(hits("JudgeShouldInsertGlobalInfo#0")) + 1
+//@   loop range:fileResult.GlobalMaps step [C09,every-global-of-the-file-is-offered] hits("JudgeShouldInsertGlobalInfo#0") == prev(hits("JudgeShouldInsertGlobalInfo#0")) + 1
+//@   loop range:fileResult.GlobalMaps exits-early-only-if [C09,every-global-of-the-file-is-offered] false
+//@   loop range:third.AllIncludeFile#0 exits-early-only-if [C09,every-file-is-visited] false
+//@   ensures[C08,table-is-built-from-the-saved-analyses] hits("GetCacheFileStruct#0") == 0 && hits("getVailidCacheFileStruct#0") == 0
+//@   unchecked pre:JudgeShouldInsertGlobalInfo.r0#0 the entries of a file's GlobalMaps are created by the first pass for global definitions, which always attaches the ExtraGlobal record (CreateVarInfo / InsertGlobalVar, not under contract here): data well-formedness of the analysis result, assumed
+//@   unchecked pre:JudgeShouldInsertGlobalInfo.r1#0 as above, for the definitions already in the workspace table (they come from the same maps through InsertThirdGlobalGMaps)
+//@ end
+
+// ---- C13: the documentation of a hovered variable is the comment attached to its DECLARATION ----
+// read in the file that holds the declaration (not the file of the request), at the declaration's line, and shown as
+// GetStrComment renders that text
+//@ func (*AllProject).getVarHoverInfo
+//@   props C13
+//@   at call GetLineComment#0 before assert[documentation-is-read-in-the-declaring-file-at-the-declaration-line] arg0 == a && streq(arg1, symbol.FileName) && arg2 == symbol.VarInfo.Loc.EndLine
+//@   at call GetStrComment#0 before assert[shown-text-is-the-comment-found-there] arg0 == lastresult("GetLineComment#0")
 //@ end
